@@ -13,7 +13,7 @@ use qrlew::{
     sql::{parse, relation::QueryWithRelations},
 };
 use serde_json::{json, Value as J};
-use sqlparser::{dialect::{GenericDialect, PostgreSqlDialect}, parser::Parser};
+use sqlparser::{dialect::{BigQueryDialect, Dialect, MsSqlDialect, MySqlDialect, PostgreSqlDialect, SQLiteDialect}, parser::Parser};
 
 const ALPHA: [char; 14] = ['a', 'b', ' ', '\'', '\'', '"', '"', '\\', '`', ']', '[', 'é', '%', '.'];
 
@@ -43,6 +43,14 @@ fn with_tr<T>(d: &str, f: impl FnOnce(&dyn Fn(&Expr) -> ast::Expr, &dyn Fn(&Iden
     match d { "pg" => go!(PostgreSqlTranslator), "sqlite" => go!(SQLiteTranslator), "mysql" => go!(MySqlTranslator), "mssql" => go!(MsSqlTranslator), _ => go!(BigQueryTranslator) }
 }
 
+/// parse `text` as one expression with the dialect the library reads target `d` with
+fn read_expr(d: &str, text: &str) -> Result<ast::Expr, String> {
+    fn go<D: Dialect>(dial: D, text: &str) -> Result<ast::Expr, String> {
+        Parser::new(&dial).try_with_sql(text).and_then(|mut p| { let e = p.parse_expr()?; p.expect_token(&sqlparser::tokenizer::Token::EOF)?; Ok(e) }).map_err(|e| e.to_string())
+    }
+    match d { "pg" => go(PostgreSqlDialect {}, text), "sqlite" => go(SQLiteDialect {}, text), "mysql" => go(MySqlDialect {}, text), "mssql" => go(MsSqlDialect {}, text), _ => go(BigQueryDialect {}, text) }
+}
+
 pub fn eval(case: &J) -> Outcome {
     let mut out = Outcome::new();
     let s = case["s"].as_str().unwrap().to_string();
@@ -53,22 +61,21 @@ pub fn eval(case: &J) -> Outcome {
         "lit" => {
             let sh = shape(&s, '\''); out.tag(&format!("shape={sh}"));
             let text = match guarded(|| with_tr(d, |ex, _| ex(&Expr::val(s.clone())).to_string())) { Ok(t) => t, Err((loc, msg)) => { out.fail(&format!("C18/quote/render-panic/{}", site(&loc, &msg)), format!("literal {s:?}: {msg}")); return out; } };
-            out.imp = json!(text);
-            out.aux = json!({"q": "'"});
-            // read back with the parser the library uses for its own input
-            let back = Parser::new(&PostgreSqlDialect {}).try_with_sql(&text).and_then(|mut p| { let e = p.parse_expr()?; p.expect_token(&sqlparser::tokenizer::Token::EOF)?; Ok(e) });
+            // read back with the dialect the library reads this target with
+            let back = read_expr(d, &text);
             let got = match &back { Ok(ast::Expr::Value(ast::Value::SingleQuotedString(v))) => Some(v.clone()), Ok(ast::Expr::Nested(b)) => match &**b { ast::Expr::Value(ast::Value::SingleQuotedString(v)) => Some(v.clone()), _ => None }, _ => None };
-            if got.as_deref() != Some(&s) { out.fail(&format!("C08/quote/literal-changed/{sh}"), format!("the text value {s:?} is rendered as {text} which reads back as {:?}", got.map(|g| format!("{g:?}")).unwrap_or_else(|| format!("{:?}", back.map(|e| e.to_string()).map_err(|e| e.to_string()))))); }
+            out.imp = json!({"text": text, "back": got});
+            let bsl = if s.contains('\\') { "+backslash" } else { "" };
+            if got.as_deref() != Some(&s) { out.fail(&format!("{}/quote/literal-changed/{sh}{}", if d == "pg" { "C08" } else { "C17" }, if d == "pg" { String::new() } else { format!("{bsl}/{d}") }), format!("the text value {s:?} is rendered for {d} as {text} which reads back as {:?}", got.map(|g| format!("{g:?}")).unwrap_or_else(|| format!("{:?}", back.map(|e| e.to_string()))))); }
         }
         "ident" => {
             let q = match d { "mysql" | "bigquery" => '`', _ => '"' };
             let sh = if s.is_empty() { "empty" } else { shape(&s, q) }; out.tag(&format!("shape={sh}"));
             let text = match guarded(|| with_tr(d, |_, id| id(&Identifier::from_name(s.clone())).iter().map(|i| i.to_string()).collect::<Vec<_>>().join("."))) { Ok(t) => t, Err((loc, msg)) => { out.fail(&format!("C18/quote/render-panic/{}", site(&loc, &msg)), format!("identifier {s:?}: {msg}")); return out; } };
-            out.imp = json!(text);
-            out.aux = json!({"q": q.to_string()});
-            let back = Parser::new(&GenericDialect {}).try_with_sql(&text).and_then(|mut p| { let e = p.parse_expr()?; p.expect_token(&sqlparser::tokenizer::Token::EOF)?; Ok(e) });
+            let back = read_expr(d, &text);
             let got = match &back { Ok(ast::Expr::Identifier(i)) => Some(i.value.clone()), _ => None };
-            if got.as_deref() != Some(&s) { out.fail(&format!("C08/quote/identifier-changed/{sh}"), format!("the name {s:?} is rendered as {text} which reads back as {:?}", got.map(|g| format!("{g:?}")).unwrap_or_else(|| format!("{:?}", back.map(|e| e.to_string()).map_err(|e| e.to_string()))))); }
+            out.imp = json!({"text": text, "back": got});
+            if got.as_deref() != Some(&s) { out.fail(&format!("{}/quote/identifier-changed/{sh}{}", if d == "pg" { "C08" } else { "C17" }, if d == "pg" { String::new() } else { format!("/{d}") }), format!("the name {s:?} is rendered for {d} as {text} which reads back as {:?}", got.map(|g| format!("{g:?}")).unwrap_or_else(|| format!("{:?}", back.map(|e| e.to_string()))))); }
         }
         _ => {
             // a Map with an output column named `s` and a text literal `s`: render, compile back, compare names and the literal's type
